@@ -29,6 +29,15 @@ CONFIGS = {
     "asm-san": ("g++", ["-fsanitize=address,undefined", "-fno-sanitize-recover=undefined", "-fno-omit-frame-pointer"], True),
     "p64-san": ("g++", ["-DDISABLE_ASM", "-fsanitize=address,undefined", "-fno-sanitize-recover=undefined", "-fno-omit-frame-pointer"], False),
     "p32-san": ("g++", ["-DDISABLE_ASM", "-U__SIZEOF_INT128__", "-fsanitize=address,undefined", "-fno-sanitize-recover=undefined", "-fno-omit-frame-pointer"], False),
+    # ARM binding layer on the host: portable build + the ARM specialisation headers force-included; the assembly symbols are
+    # provided by shim/extra/glue_*.cpp (plain C), the real assembly is executed by vf/arm under interpreters
+    "glue-a64": ("clang++", ["-DDISABLE_ASM", "-include", "core/arch/aarch64/bigint.hpp", "-include", "core/arch/aarch64/fp.hpp"], False),
+    "glue-v6m": ("clang++", ["-DDISABLE_ASM", "-U__SIZEOF_INT128__", "-include", "core/arch/armv6_m/bigint.hpp", "-include", "core/arch/armv6_m/fp.hpp"], False),
+}
+# per-configuration extra sources: (files under /verif, files under the repository)
+CONFIG_EXTRA = {
+    "glue-a64": (["shim/extra/glue_a64.cpp"], []),
+    "glue-v6m": (["shim/extra/glue_v6m.cpp"], ["src/core/arch/armv6_m/fp.cpp"]),
 }
 
 BASE_FLAGS = ["-std=c++17", "-fPIC", "-g0", "-D" + GUARD]
@@ -95,7 +104,8 @@ def build_shim(cfg, extra_sources=(), tag="shim", extra_flags=()):
     """Build lib + shim into one shared object for configuration cfg. Returns path."""
     cxx, flags, use_asm = CONFIGS[cfg]
     shim_dir = os.path.join(VERIF, "shim")
-    shim_srcs = sorted(os.path.join(shim_dir, f) for f in os.listdir(shim_dir) if f.endswith(".cpp")) + list(extra_sources)
+    ev, er = CONFIG_EXTRA.get(cfg, ([], []))
+    shim_srcs = sorted(os.path.join(shim_dir, f) for f in os.listdir(shim_dir) if f.endswith(".cpp")) + list(extra_sources) + [os.path.join(VERIF, f) for f in ev] + [os.path.join(repo(), f) for f in er]
     shim_deps = _files(VERIF, "shim", (".cpp", ".def", ".hpp", ".h"))
     h = tree_hash(shim_deps)
     h.update(repr((cfg, cxx, flags, sorted(extra_flags), tag, [os.path.basename(x) for x in shim_srcs], "v2")).encode())
@@ -115,7 +125,7 @@ def build_shim(cfg, extra_sources=(), tag="shim", extra_flags=()):
         shutil.rmtree(tmp, ignore_errors=True)
         os.makedirs(tmp)
         srcs, asm = lib_sources(use_asm)
-        inc = ["-I" + os.path.join(repo(), "include"), "-I" + shim_dir]
+        inc = ["-I" + os.path.join(repo(), "include"), "-I" + shim_dir, "-I" + os.path.join(shim_dir, "extra")]
         allflags = BASE_FLAGS + OPT[cxx] + flags + list(extra_flags) + inc
         jobs = []
         objs = []
